@@ -127,7 +127,8 @@ class Distogram:  # pragma: no cover
 
 # added for opteryx
 def load(bins: list, minimum, maximum):  # pragma: no cover
-    dgram = Distogram()
+    # never reload a histogram over its own capacity
+    dgram = Distogram(max(BIN_COUNT, len(bins)))
     dgram.bins = bins
     dgram.min = minimum
     dgram.max = maximum
